@@ -12,6 +12,8 @@ pub mod c12;
 pub mod c13;
 pub mod c14;
 pub mod c16;
+pub mod c17;
+pub mod c19;
 
 use crate::run::Cfg;
 
@@ -31,6 +33,8 @@ pub fn dispatch(cfg: &Cfg) -> i32 {
         "C13" => c13::run(cfg),
         "C14" => c14::run(cfg),
         "C16" => c16::run(cfg),
+        "C17" => c17::run(cfg),
+        "C19" => c19::run(cfg),
         other => {
             eprintln!("unknown property {other}");
             2
